@@ -58,7 +58,8 @@ func checkC12(p *Program, r *Report) {
 		"numTx ≠ 0, numTx ≤ MaxTxnCount, #hashes ≤ numTx, #bits ≥ #hashes, and, evaluated after the traversal, latch clear, ⌈bitsUsed/8⌉ = ⌈#bits/8⌉, " +
 		"hashesUsed = #hashes — each with exactly the stated relation (linear entailment from must-pass-through branch facts). C12.cursor: in the " +
 		"traversal both cursor reads are in range on every path and the out-of-range edges set the latch and return; equal children set the latch. " +
-		"C12.latch: the failure latch is only ever set to true after construction. Not decided: that the returned root equals an independent hash evaluation."
+		"C12.latch: the failure latch is only ever set to true after construction (or reset to false at the start of an extraction). C12.fresh: ExtractMatches resets both cursors, the latch " +
+		"and the two result lists before the traversal, so asking the same object twice cannot resume from a rejected traversal. Not decided: that the returned root equals an independent hash evaluation."
 	r.Trusted = []string{"blockchain.HashMerkleBranches, chainhash.Hash.IsEqual", "wire.MsgMerkleBlock field semantics"}
 	ctor := p.Func("merkleblock", "NewMerkleBlockFromMsg")
 	ext := p.Func("merkleblock", "(*PartialBlock).ExtractMatches")
@@ -384,6 +385,73 @@ func checkC12(p *Program, r *Report) {
 	r.Add("C12.cursor", FnName(T), "an inner node with two equal children sets the latch (CVE-2012-2459)", eqPos, okEq, "IsEqual(left, right) true edge: latch = true")
 	r.Floor("C12.cursor", 5)
 
+	// ---- C12.fresh: every extraction starts from the initial traversal state (an object may be asked twice)
+	{
+		// traversal state = the cursors, the latch, and every list field the traversal appends to
+		state := []*types.Var{bitCur, hashCur, latch}
+		for _, b := range T.Blocks {
+			for _, in := range b.Instrs {
+				st, ok := in.(*ssa.Store)
+				if !ok {
+					continue
+				}
+				fa, ok := st.Addr.(*ssa.FieldAddr)
+				if !ok || canonRoot(fa.X) != trecv {
+					continue
+				}
+				if c, ok := st.Val.(*ssa.Call); ok && isBuiltin(&c.Call, "append") {
+					dup := false
+					for _, f := range state {
+						if f == fieldOfAddr(fa) {
+							dup = true
+						}
+					}
+					if !dup {
+						state = append(state, fieldOfAddr(fa))
+					}
+				}
+			}
+		}
+		for _, f := range state {
+			okReset, how := false, "not reset before the traversal: a second call resumes where the first one stopped"
+			for _, b := range ext.Blocks {
+				for _, in := range b.Instrs {
+					st, ok := in.(*ssa.Store)
+					if !ok || !instrDominates(st, tcall) {
+						continue
+					}
+					fa, ok := st.Addr.(*ssa.FieldAddr)
+					if !ok || fieldOfAddr(fa) != f || canonRoot(fa.X) != recv {
+						continue
+					}
+					switch v := st.Val.(type) {
+					case *ssa.Const:
+						if k, isK := constInt(v); isK && k == 0 {
+							okReset, how = true, "set to 0 before the traversal"
+						} else if bv, isB := constBool(v); isB && !bv {
+							okReset, how = true, "set to false before the traversal"
+						} else if v.Value == nil {
+							okReset, how = true, "set to nil before the traversal"
+						}
+					case *ssa.MakeSlice:
+						if k, isK := constInt(v.Len); isK && k == 0 {
+							okReset, how = true, "replaced by a fresh empty list before the traversal"
+						}
+					case *ssa.Slice:
+						// x[:0] of a fresh allocation only
+						if _, isAlloc := v.X.(*ssa.Alloc); isAlloc {
+							if k, isK := constInt(v.High); v.High != nil && isK && k == 0 {
+								okReset, how = true, "replaced by a fresh empty list before the traversal"
+							}
+						}
+					}
+				}
+			}
+			r.Add("C12.fresh", FnName(ext), "traversal state "+f.Name()+" starts from its initial value on every extraction", tcall.Pos(), okReset, how)
+		}
+	}
+	r.Floor("C12.fresh", 5)
+
 	// ---- C12.latch
 	for _, fn := range p.Funcs {
 		for _, b := range fn.Blocks {
@@ -400,7 +468,11 @@ func checkC12(p *Program, r *Report) {
 					continue // construction of a new object
 				}
 				v, isC := constBool(st.Val)
-				r.Add("C12.latch", FnName(fn), "store to the failure latch sets it", st.Pos(), isC && v, "the latch is monotone: once bad, always bad")
+				if isC && !v && fn == ext && instrDominates(st, tcall) && canonRoot(fa.X) == recv {
+					r.Add("C12.latch", FnName(fn), "the failure latch is cleared only at the start of an extraction, before the traversal", st.Pos(), true, "reset together with the cursors (C12.fresh)")
+					continue
+				}
+				r.Add("C12.latch", FnName(fn), "store to the failure latch sets it", st.Pos(), isC && v, "the latch is monotone within an extraction: once bad, always bad")
 			}
 		}
 	}
